@@ -91,6 +91,42 @@ pub fn run(ctx: &Ctx, rep: &mut Report) {
             }
         }
     }
+    // distinct codes must be distinct values under the crate's own `==` as well (not only in
+    // their Debug rendering): all pairs of codes of every enumerated type with a parser
+    if ctx.shard == 1 % ctx.nshards {
+        use crate::decode_ref::{aid_type_name, epfd_name, maneuver_name, nav_status_name};
+        let kinds: [(u8, u16, &str, fn(u64) -> String); 5] = [
+            (0, 256, "ship type", ship_type_name),
+            (1, 16, "fix device", epfd_name),
+            (2, 16, "navigation status", nav_status_name),
+            (3, 4, "manoeuvre indicator", maneuver_name),
+            (4, 32, "aid type", aid_type_name),
+        ];
+        for (kind, ncodes, name, namer) in kinds {
+            for a in 0..ncodes {
+                for b in (a + 1)..ncodes {
+                    rep.eval();
+                    let absent = |c: u16| namer(c as u64) == "None";
+                    // undefined codes are all reported as absent and therefore equal
+                    let want_equal = absent(a) && absent(b);
+                    match mon::guard(|| observe::enum_codes_equal(kind, a as u8, b as u8)) {
+                        Err(pi) => rep.violation(PID, format!("panic@{}", pi.loc), pi.msg.clone(), || J::s("enum parse")),
+                        Ok(eq) => {
+                            if eq != want_equal {
+                                rep.violation(
+                                    PID,
+                                    format!("codes-compare-{}:{}", if eq { "equal" } else { "unequal" }, name.replace(' ', "-")),
+                                    format!("{} codes {} and {}: `==` on the decoded values gives {}, expected {}", name, a, b, eq, want_equal),
+                                    || J::s("pairwise comparison of decoded codes"),
+                                );
+                            }
+                        }
+                    }
+                }
+            }
+            rep.class(format!("pairwise-eq|{}", name));
+        }
+    }
     rep.require("codes_checked");
     rep.extra.insert("exhaustive_codes".into(), J::Bool(true));
     rep.sample(3, || {
